@@ -369,7 +369,7 @@ func countedLoop(an *ir.Analysis, h *ssa.BasicBlock) *Loop {
 					good = false
 				}
 				// taken only while len(rest) > 0
-				if polarity(p, &ir.Term{Op: "bin", Aux: "<", Args: []*ir.Term{ir.Const("0"), {Op: "len", Args: []*ir.Term{sym}}}}) <= 0 {
+				if polarity(p, &ir.Term{Op: "bin", Aux: "==", Args: sorted2(ir.Const("0"), &ir.Term{Op: "len", Args: []*ir.Term{sym}})}) >= 0 {
 					good = false
 				}
 			}
@@ -804,4 +804,94 @@ func earlyExit(an *ir.Analysis, h *ssa.BasicBlock) *ir.Path {
 		}
 	}
 	return nil
+}
+
+// lockstepRewrite: integer memory cells that advance in lock-step with the loop's counter (a cursor object whose
+// position is bumped once per iteration, `at.next()`) are related to the counter by an invariant - on every way into
+// the loop the cell holds a constant c0 while the counter starts at a constant k0, and every way round the loop adds
+// the loop's step to both - so that at the loop head cell = counter + (c0 - k0). The returned function rewrites the
+// head value of such cells in a term to that expression of the counter (other terms are returned unchanged).
+func lockstepRewrite(an *ir.Analysis, l *Loop) func(*ir.Term) *ir.Term {
+	id := func(t *ir.Term) *ir.Term { return t }
+	if l == nil || l.Header == nil || l.Phi == nil || l.Start == nil {
+		return id
+	}
+	h := l.Header
+	k0, isK := l.Start.IntConst()
+	if !isK {
+		return id
+	}
+	sym := phiSym(an, h, l.Phi)
+	// candidate cells: loads of the head's memory version seen on the paths from the head
+	cells := map[string]*ir.Term{}
+	collect := func(t *ir.Term) {
+		if t == nil {
+			return
+		}
+		t.Walk(func(x *ir.Term) {
+			if x.Op == "load" && strings.HasPrefix(x.Aux, "@") && len(x.Args) == 1 && an.Start[h] != nil {
+				if hv := an.Start[h].MemAt(x.Args[0]); hv != nil && ir.Same(hv, x) {
+					cells[x.Key()] = x
+				}
+			}
+		})
+	}
+	for _, p := range an.Segs[h] {
+		for i := range p.Steps {
+			st := &p.Steps[i]
+			for _, a := range st.A {
+				collect(a)
+			}
+			collect(st.R)
+			collect(st.Atom)
+		}
+	}
+	type rel struct {
+		cell *ir.Term
+		off  int64
+	}
+	var rels []rel
+	lb := ir.LoopBlocks(h)
+	for _, cell := range cells {
+		addr := cell.Args[0]
+		ok, nBack, nIn := true, 0, 0
+		var c0 int64
+		for _, ps := range an.Segs {
+			for _, p := range ps {
+				if p.To != h || p.End == nil {
+					continue
+				}
+				v := p.End.MemAt(addr)
+				if p.From != nil && lb[p.From] {
+					nBack++
+					if p.From != h {
+						ok = false // nested heads: not handled
+						continue
+					}
+					if d, isD := plusConst(v, cell); !isD || d != l.Step {
+						ok = false
+					}
+				} else {
+					k, isC := v.IntConst()
+					if !isC || (nIn > 0 && k != c0) {
+						ok = false
+					}
+					c0 = k
+					nIn++
+				}
+			}
+		}
+		if ok && nBack > 0 && nIn > 0 {
+			rels = append(rels, rel{cell, c0 - k0})
+		}
+	}
+	if len(rels) == 0 {
+		return id
+	}
+	return func(t *ir.Term) *ir.Term {
+		for _, r := range rels {
+			t = substTerm(t, r.cell, ir.MkBin("+", ir.Const(fmt.Sprint(r.off)), sym))
+		}
+		return ir.Rebuild(t)
+	}
 }
